@@ -1,5 +1,7 @@
 import XpmVerif.Proofs.RestartLink
 import XpmVerif.Proofs.RestartTerm
+import XpmVerif.Proofs.RestartPhase
+import XpmVerif.Proofs.RestartPhaseF
 import XpmVerif.Generated.SchedFlags
 /-! C11 — restarting a killed experiment adopts running jobs and repeats nothing.
     Property theorems only.  Model M4 (`Model/Restart.lean`): the scheduler M2 with the adoption path of
@@ -181,34 +183,38 @@ theorem launch_regenerates_script (fl : Flags) (a : StA Disk) (j : Nat)
 
 /-! ### the second run: "the second run reaches the same final results"
 
-    FULL STATEMENT (proved below only for restarts that find no live process): from every world
-    `WReach fl totals done0 w`, after the crash (`w.restart`) and the re-submission of the experiment to the new
-    scheduler, every maximal run of the second scheduler (no callback, no helper-thread completion, no process move
-    possible any more) is finite and ends with every job final, where
+    FULL STATEMENT (PROVED: `restart_run_finite`, `restart_maximal_run_all_final`, `restart_maximal_run_exists` at the end of
+    this section): from every world `WReach fl totals done0 w`, after the crash (`w.restart`) and the re-submission of the
+    experiment to the new scheduler, every maximal run of the second scheduler (no callback, no helper-thread completion, no
+    process move possible any more) is finite and ends with every job final, where
     (a) every job reported DONE has its marker, exactly one successful body, and `bodies = 1` for its directory if no
         body of it failed,
-    (b) every token is full again.
+    (b) every token is full,
+    WHATEVER the pid files say: jobs whose pid file names a live process are ADOPTED (during the re-submission or later),
+    with token and job dependencies, satisfied or not.  The hypotheses are those of the first partial result minus
+    `NoLivePid`: well-formed re-submission with pairwise distinct identifiers (`RestartTerm.SubsOK`), `TokFit`, the four
+    scheduler repairs.
+
+    HOW.  Three stages, all kept in the file:
+    1. `restart_*_partial` (`Proofs/RestartTerm.lean`): restarts at which no pid file names a live process (`NoLivePid`);
+       such a scheduler never adopts, its callbacks are those of M2 up to edits of `marker` / `code`.
+    2. `restart_*_adopt_partial` (`Proofs/RestartAbs … RestartPhase.lean`): adoption allowed, under the extra hypothesis
+       that every JOB dependency of an adoptable job has its success marker (`RestartLive.SubsOKA`, clause 4).  Simulation
+       into M2: an adopted job is seen as a job WITHOUT dependencies that was launched and waits for its exit code
+       (`RestartAbs.abs`); the adoption step is six moves of M2 (`RestartAbs.adopt_good2`: drop the dependencies, first
+       segment, lock-enter thread, start segment, lock-exit thread, last start segment, with two rotations of the ready
+       queue — the invariants of M2 see the queue only through counts and membership); the checks of the dependencies of an
+       adopted job are invisible and are counted separately in the measure.
+    3. `restart_run_finite` … (`Proofs/RestartAbsF … RestartPhaseF.lean`): no hypothesis on the dependencies.  An adopted job
+       whose dependency fails is set to ERROR (`failedDep`) while it still waits for its process, and the exit code
+       overwrites that later (`adopted_overwritten` below: a DONE job whose dependency ended in ERROR).  The abstraction
+       `RestartFull.absF` masks the state of an adopted job until its process has ended, and `RestartFull.AdInvF` shows that
+       nobody reads it meanwhile: a job whose first segment has not begun is at the head of the FIFO queue and no job is in
+       state ERROR while such a job exists; a `check` is queued only by the done-handler of its origin, a `notifyCheck` only
+       for a token.
     An exhaustive search of the restart world (all interleavings of the first run, every crash point of the three kinds,
     re-submission, all interleavings of the second run; 1 job / failing job + dependent / chain of 3 / 2 jobs on 1 token
-    / token + job dependency) finds no violating terminal world and no cycle, adoption included.
-
-    PROVED below (`restart_run_finite_partial`, `restart_never_adopts_partial`,
-    `restart_maximal_run_all_final_partial`, `restart_maximal_run_exists_partial`): the full statement for every restart
-    at which no pid file names a live process (every crash after the job processes have exited, every crash before a
-    pid file is written — `crashAfterSpawn`, `crashInPrepare`, with their orphan processes —, a crash that takes the
-    job processes with it) and a re-submission with pairwise distinct identifiers.  Such a scheduler never adopts
-    (proved, not assumed), its callbacks are those of M2 up to the overwriting of `marker` / `code`, which no invariant
-    and not the termination measure of C06 can see; the job processes (the new ones and the orphans of the first run)
-    add their own rank; a run lock held by the scheduler belongs to a job between its lock-enter and lock-exit threads,
-    so a world without enabled event has a scheduler with nothing pending, and the deadlock-freedom argument of C06
-    applies.
-
-    MISSING for the full statement: adoption (a pid file names a live process at the restart).  An adopted job is
-    RUNNING at `codeWait` with no launch, no lock held and possibly unsatisfied dependencies; it can even be set to
-    ERROR by a failing dependency while its process runs and then overwritten by the exit code.  The invariant stack of
-    M2 behind `every_run_finite` (`JLocal`, `JDeep.readyDeps/runRunning`, `XInv`, the capacity invariant
-    `held = range`) excludes such records and would have to be generalised clause by clause, with a measure in which
-    an adopted job skips the lock segments. -/
+    / token + job dependency) had found no violating terminal world and no cycle, adoption included. -/
 
 /-- **the second run is finite (partial: finiteness only, restarts that find no live process)**.  Let `w` be any
     reachable world (any first run, crashed at any point, any number of earlier crashes) such that after the crash no
@@ -295,6 +301,176 @@ theorem restart_maximal_run_exists_partial {fl : Flags} (hg : fl.readyGuarded = 
       ∀ e, ¬ RestartTerm.WEnabled (W.run fl (RestartTerm.resubmitted fl w xs) evs) e :=
   RestartTerm.restart_maximal_run_exists hg hf ha hrel _ _ (RestartTerm.resubmitted_sound2 hg hf ha hW hnl xs hok)
     (Nat.le_refl _)
+
+/-! ### the second run WITH adoption -/
+
+/-- the hypotheses of the theorems below on the re-submission `xs` (see `RestartLive.SubsOKA`): for every submission
+    `x`, in the world in which it is made: (1) its dependencies name earlier submissions and existing tokens, (2) no token
+    is asked twice, (3) its identifier is new, (4) if `<x>.pid` names a live process at the restart, every job it depends
+    on has its success marker at the restart. -/
+theorem subsOKA_unfold (fl : Flags) (d0 : Disk) (w : W) (x : RestartTerm.Sub) (xs : List RestartTerm.Sub) :
+    RestartLive.SubsOKA fl d0 w (x :: xs) ↔
+      (SchedFinal.EvOK w.a.s (x.ev d0) ∧ SchedFinal.EvNoDouble (x.ev d0) ∧
+       (∀ j, j < w.a.s.n → (w.a.s.jobs j).ident ≠ x.ident) ∧
+       ((∃ p, (d0.dir x.ident).pid = some p ∧ d0.alive p = true) →
+          ∀ k, Origin.job k ∈ x.deps → (d0.dir (w.a.s.jobs (w.a.s.eff k)).ident).done = true) ∧
+       RestartLive.SubsOKA fl d0 (w.apply fl (.sched (x.ev d0))) xs) := Iff.rfl
+
+/-- **the second run is finite, adoption included (partial: see hypothesis 4 of `SubsOKA`)**.  Let `w` be any reachable
+    world (any first run, crashed at any point — job processes alive, pid files present —, any number of earlier crashes)
+    and let the new scheduler take the re-submission `xs` (`SubsOKA`).  Every sequence `evs` of events of the second run —
+    callbacks (among them first segments that ADOPT a live process), completions of helper threads the world lets
+    complete, moves of job processes — has at most `wmuA` events, where
+    `wmuA = (K + 1) · (4 · μ(abstract state) + steps left to the job processes) + plain callbacks queued`
+    is computed on the world right after the re-submission (`K`: a bound on the callbacks one callback can queue,
+    `μ`: the termination measure of C06 on the state in which adopted jobs are jobs without dependencies). -/
+theorem restart_run_finite_adopt_partial {fl : Flags} (hg : fl.readyGuarded = true) (hf : fl.resubmitRegisters = true)
+    (ha : fl.abortRechecks = true) (hrel : fl.abortReleases = true) {totals : List Nat} {done0 : Nat → Bool} {w : W}
+    (hW : WReach fl totals done0 w) (xs : List RestartTerm.Sub)
+    (hok : RestartLive.SubsOKA fl w.restart.a.d w.restart xs) (evs : List WEv)
+    (hrun : RestartTerm.RunE fl (RestartTerm.resubmitted fl w xs) evs) :
+    evs.length ≤ RestartLive.wmuA (RestartTerm.resubmitted fl w xs) :=
+  (RestartLive.restart_run_finiteA hg hf ha hrel hW xs hok evs hrun).1
+
+/-- **"the second run reaches the same final results", adoption included (partial: hypothesis 4 of `SubsOKA`)**.  Same
+    hypotheses, plus `TokFit` (no job asks for more of a token than exists, as in C06).  Every *maximal* run `evs` of the
+    second scheduler is finite (`≤ wmuA` events) and ends in a reachable world `w'` in which
+    * every job of the second scheduler is final (`AllFinal`); a job that was adopted was never launched by this
+      scheduler and is final too;
+    * (b) every token is full, no job holds a token, every run lock is free, every job process (adopted ones and orphans
+      of the first run included) has exited;
+    * (a) every job reported DONE — launched, found finished, or ADOPTED — has its success marker, and if the marker was
+      not there initially exactly one body of it ever succeeded, over all runs, and if none failed its body was started
+      exactly once overall. -/
+theorem restart_maximal_run_all_final_adopt_partial {fl : Flags} (hg : fl.readyGuarded = true)
+    (hf : fl.resubmitRegisters = true) (ha : fl.abortRechecks = true) (hrel : fl.abortReleases = true)
+    {totals : List Nat} {done0 : Nat → Bool} {w : W}
+    (hW : WReach fl totals done0 w) (xs : List RestartTerm.Sub)
+    (hok : RestartLive.SubsOKA fl w.restart.a.d w.restart xs)
+    (hfit : SchedFinal.TokFit (RestartTerm.resubmitted fl w xs).a.s) (evs : List WEv)
+    (hrun : RestartTerm.RunE fl (RestartTerm.resubmitted fl w xs) evs)
+    (hmax : ∀ e, ¬ RestartTerm.WEnabled (W.run fl (RestartTerm.resubmitted fl w xs) evs) e) :
+    let w' := W.run fl (RestartTerm.resubmitted fl w xs) evs
+    evs.length ≤ RestartLive.wmuA (RestartTerm.resubmitted fl w xs) ∧
+    WReach fl totals done0 w' ∧ SchedFinal.AllFinal w'.a.s ∧
+    (∀ j, w'.a.adopted j = true → (w'.a.s.jobs j).launches = 0 ∧ ∃ r, (w'.a.s.jobs j).pc = .finished r) ∧
+    (∀ t, w'.a.s.avail t = w'.a.s.total t) ∧ (∀ j, (w'.a.s.jobs j).held = []) ∧
+    (∀ i, (w'.a.d.dir i).lock = .free) ∧ (∀ p, (w'.a.d.procs p).ph = .gone) ∧
+    (∀ j, (w'.a.s.jobs j).pc = .finished .done →
+      (w'.a.d.dir (w'.a.s.jobs j).ident).done = true ∧
+      (done0 (w'.a.s.jobs j).ident = false →
+        (w'.a.d.dir (w'.a.s.jobs j).ident).succ = 1 ∧
+        ((w'.a.d.dir (w'.a.s.jobs j).ident).fails = 0 → (w'.a.d.dir (w'.a.s.jobs j).ident).bodies = 1))) := by
+  intro w'
+  obtain ⟨h1, h2, _, _, h5, h6, h7, d1, d2, d3⟩ :=
+    RestartLive.restart_maximal_runA hg hf ha hrel hW xs hok hfit evs hrun hmax
+  refine ⟨h1, h2.reach, h5, ?_, h6, h7, d1, d2, ?_⟩
+  · intro j hj
+    obtain ⟨l0, hp⟩ := adopt_no_launch h2.reach j hj
+    refine ⟨l0, ?_⟩
+    have hjn := h2.ad_lt j hj
+    rcases h5 j hjn with hn | hr
+    · rcases hp with e | e | ⟨r, e⟩ <;> rw [hn] at e <;> cases e
+    · exact hr
+  · intro j hfin
+    refine ⟨done_has_marker h2.reach j hfin, fun h0 => ?_⟩
+    obtain ⟨e1, e2⟩ := exactly_once_done h2.reach j hfin h0
+    exact ⟨e1, fun hfl => e2 hfl (d3 _)⟩
+
+/-- **maximal runs of the second scheduler exist, adoption included (partial: same hypotheses)**. -/
+theorem restart_maximal_run_exists_adopt_partial {fl : Flags} (hg : fl.readyGuarded = true)
+    (hf : fl.resubmitRegisters = true) (ha : fl.abortRechecks = true) (hrel : fl.abortReleases = true)
+    {totals : List Nat} {done0 : Nat → Bool} {w : W}
+    (hW : WReach fl totals done0 w) (xs : List RestartTerm.Sub)
+    (hok : RestartLive.SubsOKA fl w.restart.a.d w.restart xs) :
+    ∃ evs, RestartTerm.RunE fl (RestartTerm.resubmitted fl w xs) evs ∧
+      ∀ e, ¬ RestartTerm.WEnabled (W.run fl (RestartTerm.resubmitted fl w xs) evs) e :=
+  RestartLive.restart_maximal_run_existsA hg hf ha hrel hW xs hok
+
+/-- the hypotheses of the `_partial` theorems (no pid file names a live process at the restart) imply those of the
+    `_adopt_partial` theorems: every restart covered above is covered here. -/
+theorem restart_adopt_hypotheses_cover_partial {fl : Flags} {w : W} (hnl : RestartTerm.NoLivePid w.restart.a.d)
+    (xs : List RestartTerm.Sub) (hok : RestartTerm.SubsOK fl w.restart.a.d (St.init w.totals) xs) :
+    RestartLive.SubsOKA fl w.restart.a.d w.restart xs :=
+  RestartLive.subsOKA_of_partial hnl xs hok
+
+/-! ### the second run: the full statement -/
+
+/-- **the second run is finite** (FULL: any restart, adoption included).  Let `w` be any reachable world (any first run,
+    crashed at any point — job processes alive or not, pid files present or not —, any number of earlier crashes) and let
+    the new scheduler take the re-submission `xs` (well-formed dependencies, no token asked twice by one job, pairwise
+    distinct identifiers, each submission carrying the marker its directory shows).  Every sequence `evs` of events of the
+    second run — callbacks (among them first segments that ADOPT a live process), completions of helper threads the world
+    lets complete (lock free, process exited), moves of job processes — has at most `wmuF` events, where
+    `wmuF = (K + 1) · (4 · μ(abstract state) + steps left to the job processes) + plain callbacks queued`
+    is computed on the world right after the re-submission (`K = 2·D² + D + 1`, `D` the total number of dependencies: a
+    bound on the callbacks one callback can queue; `μ`: the termination measure of C06 on the state in which adopted jobs
+    are jobs without dependencies that wait for their exit code). -/
+theorem restart_run_finite {fl : Flags} (hg : fl.readyGuarded = true) (hf : fl.resubmitRegisters = true)
+    (ha : fl.abortRechecks = true) (hrel : fl.abortReleases = true) {totals : List Nat} {done0 : Nat → Bool} {w : W}
+    (hW : WReach fl totals done0 w) (xs : List RestartTerm.Sub)
+    (hok : RestartTerm.SubsOK fl w.restart.a.d (St.init w.totals) xs) (evs : List WEv)
+    (hrun : RestartTerm.RunE fl (RestartTerm.resubmitted fl w xs) evs) :
+    evs.length ≤ RestartFull.wmuF (RestartTerm.resubmitted fl w xs) :=
+  (RestartFull.restart_run_finiteF hg hf ha hrel hW xs hok evs hrun).1
+
+/-- **"the second run reaches the same final results"** (FULL: any restart, adoption included).  Same hypotheses, plus: no
+    job asks for more of a token than exists (`TokFit`, as in C06).  Every *maximal* run `evs` of the second scheduler — in
+    its last world no callback is queued, no helper thread can complete, no job process can move — is finite (`≤ wmuF`
+    events) and ends in a reachable world `w'` (so every theorem of this file applies to it) in which
+    * every job of the second scheduler is final (`AllFinal`); a job that was adopted was never launched by this scheduler
+      and is final too;
+    * (b) every token is full, no job holds a token, every run lock is free, every job process (adopted ones and orphans of
+      the first run included) has exited;
+    * (a) every job reported DONE — launched, found finished, or adopted — has its success marker, and — if the marker was
+      not there initially — exactly one body of it ever succeeded, over all runs, and if none failed its body was started
+      exactly once overall. -/
+theorem restart_maximal_run_all_final {fl : Flags} (hg : fl.readyGuarded = true)
+    (hf : fl.resubmitRegisters = true) (ha : fl.abortRechecks = true) (hrel : fl.abortReleases = true)
+    {totals : List Nat} {done0 : Nat → Bool} {w : W}
+    (hW : WReach fl totals done0 w) (xs : List RestartTerm.Sub)
+    (hok : RestartTerm.SubsOK fl w.restart.a.d (St.init w.totals) xs)
+    (hfit : SchedFinal.TokFit (RestartTerm.resubmitted fl w xs).a.s) (evs : List WEv)
+    (hrun : RestartTerm.RunE fl (RestartTerm.resubmitted fl w xs) evs)
+    (hmax : ∀ e, ¬ RestartTerm.WEnabled (W.run fl (RestartTerm.resubmitted fl w xs) evs) e) :
+    let w' := W.run fl (RestartTerm.resubmitted fl w xs) evs
+    evs.length ≤ RestartFull.wmuF (RestartTerm.resubmitted fl w xs) ∧
+    WReach fl totals done0 w' ∧ SchedFinal.AllFinal w'.a.s ∧
+    (∀ j, w'.a.adopted j = true → (w'.a.s.jobs j).launches = 0 ∧ ∃ r, (w'.a.s.jobs j).pc = .finished r) ∧
+    (∀ t, w'.a.s.avail t = w'.a.s.total t) ∧ (∀ j, (w'.a.s.jobs j).held = []) ∧
+    (∀ i, (w'.a.d.dir i).lock = .free) ∧ (∀ p, (w'.a.d.procs p).ph = .gone) ∧
+    (∀ j, (w'.a.s.jobs j).pc = .finished .done →
+      (w'.a.d.dir (w'.a.s.jobs j).ident).done = true ∧
+      (done0 (w'.a.s.jobs j).ident = false →
+        (w'.a.d.dir (w'.a.s.jobs j).ident).succ = 1 ∧
+        ((w'.a.d.dir (w'.a.s.jobs j).ident).fails = 0 → (w'.a.d.dir (w'.a.s.jobs j).ident).bodies = 1))) := by
+  intro w'
+  obtain ⟨h1, h2, _, _, h5, h6, h7, d1, d2, d3⟩ :=
+    RestartFull.restart_maximal_runF hg hf ha hrel hW xs hok hfit evs hrun hmax
+  refine ⟨h1, h2.reach, h5, ?_, h6, h7, d1, d2, ?_⟩
+  · intro j hj
+    obtain ⟨l0, hp⟩ := adopt_no_launch h2.reach j hj
+    refine ⟨l0, ?_⟩
+    have hjn := h2.ad_lt j hj
+    rcases h5 j hjn with hn | hr
+    · rcases hp with e | e | ⟨r, e⟩ <;> rw [hn] at e <;> cases e
+    · exact hr
+  · intro j hfin
+    refine ⟨done_has_marker h2.reach j hfin, fun h0 => ?_⟩
+    obtain ⟨e1, e2⟩ := exactly_once_done h2.reach j hfin h0
+    exact ⟨e1, fun hfl => e2 hfl (d3 _)⟩
+
+/-- **maximal runs of the second scheduler exist** (FULL): from the world right after the re-submission some run of enabled
+    events reaches a world in which no event is enabled — the hypothesis `hmax` of `restart_maximal_run_all_final` can
+    always be met, by simply letting the second run go on. -/
+theorem restart_maximal_run_exists {fl : Flags} (hg : fl.readyGuarded = true)
+    (hf : fl.resubmitRegisters = true) (ha : fl.abortRechecks = true) (hrel : fl.abortReleases = true)
+    {totals : List Nat} {done0 : Nat → Bool} {w : W}
+    (hW : WReach fl totals done0 w) (xs : List RestartTerm.Sub)
+    (hok : RestartTerm.SubsOK fl w.restart.a.d (St.init w.totals) xs) :
+    ∃ evs, RestartTerm.RunE fl (RestartTerm.resubmitted fl w xs) evs ∧
+      ∀ e, ¬ RestartTerm.WEnabled (W.run fl (RestartTerm.resubmitted fl w xs) evs) e :=
+  RestartFull.restart_maximal_run_existsF hg hf ha hrel hW xs hok
 
 /-! ### non-vacuity: concrete runs (evaluated by the kernel) -/
 
@@ -413,6 +589,148 @@ example : SchedFinal.TokFit (RestartTerm.resubmitted fl0 orphanW [⟨5, [], 0⟩
       ⟨_, rfl⟩ (RestartTerm.noLivePid_of_b (wreach_inv (WReach.apply (fl := fl0) (totals := []) (done0 := fun _ => false) (w := orphanW) ⟨_, rfl⟩ .crash)).disk (by decide))
       [⟨5, [], 0⟩] ⟨fun o ho => (by cases ho), List.nodup_nil, fun j hj => absurd hj (Nat.not_lt_zero j), trivial⟩).2.1.e.c.st.blankDeps j (by omega)
     rw [hb] at hi; exact absurd hi (Nat.not_lt_zero _)
+
+/-! ### non-vacuity of the theorems with adoption
+
+    First run over one token of capacity 1: `A` (identifier 1), `B` (identifier 2, depends on `A` and on the token),
+    `C` (identifier 3, depends on `B`).  `A` completes (marker, process gone, pid file removed); `B` is launched and the
+    scheduler is killed while the body of `B` runs.  The second scheduler takes the same three submissions: `A` is found
+    finished, `B` is ADOPTED during the re-submission (its pid file names the live process 1; its job dependency `A` has
+    its marker: hypothesis 4 of `SubsOKA`), `C` waits for `B` and is launched when the adopted process has exited. -/
+
+def depFirstRun : List WEv :=
+  [.sched (.submit 1 [] 0 false), .sched (.submit 2 [.job 0, .tok 0 1] 0 false), .sched (.submit 3 [.job 1] 0 false),
+   .sched .step, .sched (.deliver 0), .sched .step, .sched (.deliver 0), .sched .step, .proc 0 true, .proc 0 true, .proc 0 true,
+   .sched (.deliver 0), .sched .step, .sched (.deliver 0), .sched .step, .sched .step, .sched .step, .sched (.deliver 0),
+   .sched .step, .sched (.deliver 0), .sched .step, .proc 1 true]
+
+def depW : W := W.run fl0 (W.init [1] (fun _ => false)) depFirstRun
+
+def depXs : List RestartTerm.Sub := [⟨1, [], 0⟩, ⟨2, [.job 0, .tok 0 1], 0⟩, ⟨3, [.job 1], 0⟩]
+
+def depSecondRun : List WEv :=
+  [.sched .step, .sched (.deliver 0), .sched .step, .sched .step, .proc 1 true, .proc 1 true, .sched (.deliver 0), .sched .step,
+   .sched (.deliver 0), .sched .step, .sched .step, .sched .step, .sched (.deliver 0), .sched .step, .sched (.deliver 0),
+   .sched .step, .proc 2 true, .proc 2 true, .proc 2 true, .sched (.deliver 0), .sched .step, .sched (.deliver 0), .sched .step]
+
+example : WReach fl0 [1] (fun _ => false) depW := ⟨_, rfl⟩
+/-- at the crash the body of `B` runs, its pid file names the live process, the marker of `A` exists -/
+example : (depW.a.d.procs 1).ph = .body ∧ (depW.restart.a.d.dir 2).pid = some 1 ∧ depW.restart.a.d.alive 1 = true ∧
+    (depW.restart.a.d.dir 1).done = true ∧ (depW.restart.a.d.dir 2).done = false := by decide
+/-- hypothesis `SubsOKA` of the theorems with adoption -/
+theorem dep_subsOKA : RestartLive.SubsOKA fl0 depW.restart.a.d depW.restart depXs :=
+  RestartLive.subsOKA_of_b _ _ _ _ (by decide)
+/-- `NoLivePid` fails: the `_partial` theorems do not apply to this restart -/
+example : ¬ RestartTerm.NoLivePid depW.restart.a.d := fun h => by
+  have := h 2 1 (by decide)
+  revert this; decide
+/-- `B` is adopted during the re-submission, `A` has been found finished -/
+example : (RestartTerm.resubmitted fl0 depW depXs).a.adopted 1 = true ∧
+    ((RestartTerm.resubmitted fl0 depW depXs).a.s.jobs 1).pc = .codeWait ∧
+    ((RestartTerm.resubmitted fl0 depW depXs).a.s.jobs 0).state = .done ∧
+    ((RestartTerm.resubmitted fl0 depW depXs).a.s.jobs 2).pc = .created := by decide
+example : RestartTerm.RunE fl0 (RestartTerm.resubmitted fl0 depW depXs) depSecondRun :=
+  RestartTerm.runE_of_b _ _ _ (by decide)
+/-- the bound of `restart_run_finite_adopt_partial` and the length of this run -/
+example : RestartLive.wmuA (RestartTerm.resubmitted fl0 depW depXs) = 78706 ∧ depSecondRun.length = 23 := by decide
+set_option maxRecDepth 8000 in
+/-- the run is maximal (hypothesis `hmax`) and `TokFit` holds -/
+theorem dep_maximal : ∀ e, ¬ RestartTerm.WEnabled (W.run fl0 (RestartTerm.resubmitted fl0 depW depXs) depSecondRun) e :=
+  RestartLive.stuck_of_b _ (by decide)
+theorem dep_tokFit : SchedFinal.TokFit (RestartTerm.resubmitted fl0 depW depXs).a.s :=
+  RestartLive.tokFit_of_b
+    (RestartLive.resubmitted_soundA (fl := fl0) rfl rfl rfl rfl (totals := [1]) (done0 := fun _ => false) (w := depW) ⟨_, rfl⟩ depXs dep_subsOKA)
+    (by decide)
+set_option maxRecDepth 8000 in
+/-- what the theorem gives on this run, checked directly: all three jobs DONE; `B` adopted and never launched by the second
+    scheduler; one body per job overall; token full -/
+example :
+    let w := W.run fl0 (RestartTerm.resubmitted fl0 depW depXs) depSecondRun
+    (w.a.s.jobs 0).pc = .finished .done ∧ (w.a.s.jobs 1).pc = .finished .done ∧ (w.a.s.jobs 2).pc = .finished .done ∧
+    w.a.adopted 1 = true ∧ (w.a.s.jobs 1).launches = 0 ∧ (w.a.s.jobs 0).launches = 0 ∧ (w.a.s.jobs 2).launches = 1 ∧
+    (w.a.d.dir 1).bodies = 1 ∧ (w.a.d.dir 2).bodies = 1 ∧ (w.a.d.dir 3).bodies = 1 ∧ (w.a.d.dir 2).spawns = 1 ∧
+    w.a.s.avail 0 = 1 ∧ w.a.s.ready = [] ∧ w.a.s.threads = [] := by decide
+/-- the theorem itself, instantiated -/
+example :
+    let w' := W.run fl0 (RestartTerm.resubmitted fl0 depW depXs) depSecondRun
+    depSecondRun.length ≤ RestartLive.wmuA (RestartTerm.resubmitted fl0 depW depXs) ∧ SchedFinal.AllFinal w'.a.s ∧
+    (∀ t, w'.a.s.avail t = w'.a.s.total t) ∧ (∀ p, (w'.a.d.procs p).ph = .gone) := by
+  have h := restart_maximal_run_all_final_adopt_partial (fl := fl0) rfl rfl rfl rfl (totals := [1]) (done0 := fun _ => false)
+    (w := depW) ⟨_, rfl⟩ depXs dep_subsOKA dep_tokFit depSecondRun (RestartTerm.runE_of_b _ _ _ (by decide)) dep_maximal
+  exact ⟨h.1, h.2.2.1, h.2.2.2.2.1, h.2.2.2.2.2.2.2.1⟩
+
+/-- the simple adoption run `adoptRun` above (one job, killed while its process waits for the lock) is also covered:
+    hypothesis `SubsOKA` holds (no job dependency) -/
+example :
+    let w := W.run fl0 (W.init [] (fun _ => false))
+      [.sched (.submit 5 [] 0 false), .sched .step, .sched (.deliver 0), .sched .step]
+    RestartLive.SubsOKA fl0 w.restart.a.d w.restart [⟨5, [], 0⟩] ∧ ¬ RestartTerm.NoLivePid w.restart.a.d := by
+  refine ⟨RestartLive.subsOKA_of_b _ _ _ _ (by decide), fun h => ?_⟩
+  have := h 5 0 (by decide)
+  revert this; decide
+
+/-! ### an adopted job whose dependency has no marker (outside `_adopt_partial`, inside the full statement)
+
+    `J` (identifier 2, no dependency) is launched by the first scheduler, which is killed while the body runs.  The second
+    scheduler is given a DIFFERENT experiment: `O` (identifier 1, its body fails) and `J` now depending on `O` — hypothesis 4
+    of `SubsOKA` fails.  `J` is adopted; `O` is launched and fails; `J`, still waiting for its process, is set to ERROR with
+    `failedDep`; then its process ends with the marker and the exit code overwrites the state: `J` ends DONE although its
+    dependency ended in ERROR (an observation about the adoption path of `aio_submit`, to be replayed on the real
+    scheduler).  The run ends with every job final, as `restart_maximal_run_all_final` says it must. -/
+
+def overFirstRun : List WEv :=
+  [.sched (.submit 2 [] 0 false), .sched .step, .sched (.deliver 0), .sched .step, .sched (.deliver 0), .sched .step, .proc 0 true]
+def overW : W := W.run fl0 (W.init [] (fun _ => false)) overFirstRun
+def overXs : List RestartTerm.Sub := [⟨1, [], 1⟩, ⟨2, [.job 0], 0⟩]
+def overRunA : List WEv :=
+  [.sched .step, .sched (.deliver 0), .sched .step, .sched (.deliver 1), .sched .step, .proc 1 true, .proc 1 true, .proc 1 true,
+   .sched (.deliver 1), .sched .step, .sched (.deliver 1), .sched .step, .sched .step]
+def overRunB : List WEv := [.proc 0 true, .proc 0 true, .sched (.deliver 0), .sched .step, .sched (.deliver 0), .sched .step]
+
+/-- hypothesis 4 fails for this re-submission -/
+example : RestartLive.subsOKAb fl0 overW.restart.a.d overW.restart overXs = false := by decide
+example : RestartTerm.RunE fl0 (RestartTerm.resubmitted fl0 overW overXs) (overRunA ++ overRunB) :=
+  RestartTerm.runE_of_b _ _ _ (by decide)
+/-- **an adopted job set to ERROR by a failing dependency, then overwritten by the exit code** -/
+theorem adopted_overwritten :
+    let w1 := W.run fl0 (RestartTerm.resubmitted fl0 overW overXs) overRunA
+    let w2 := W.run fl0 w1 overRunB
+    w1.a.adopted 1 = true ∧ (w1.a.s.jobs 1).pc = .codeWait ∧ (w1.a.s.jobs 1).state = .error ∧ (w1.a.s.jobs 1).failedDep = true ∧
+    (w1.a.s.jobs 0).pc = .finished .error ∧
+    (w2.a.s.jobs 1).pc = .finished .done ∧ (w2.a.s.jobs 1).failedDep = true ∧ (w2.a.s.jobs 0).pc = .finished .error ∧
+    RestartLive.stuckB w2 = true := by decide
+
+/-- the full statement applies to that restart: hypotheses `SubsOK` and `TokFit`, the run is a maximal run of enabled events -/
+theorem over_subsOK : RestartTerm.SubsOK fl0 overW.restart.a.d (St.init overW.totals) overXs :=
+  RestartFull.subsOK_of_b _ _ _ _ (by decide)
+theorem over_tokFit : SchedFinal.TokFit (RestartTerm.resubmitted fl0 overW overXs).a.s :=
+  RestartFull.tokFit_of_bF
+    (RestartFull.resubmitted_soundF (fl := fl0) rfl rfl rfl rfl (totals := []) (done0 := fun _ => false) (w := overW) ⟨_, rfl⟩ overXs over_subsOK)
+    (by decide)
+example :
+    let w' := W.run fl0 (RestartTerm.resubmitted fl0 overW overXs) (overRunA ++ overRunB)
+    (overRunA ++ overRunB).length ≤ RestartFull.wmuF (RestartTerm.resubmitted fl0 overW overXs) ∧ SchedFinal.AllFinal w'.a.s ∧
+    (∀ j, w'.a.adopted j = true → (w'.a.s.jobs j).launches = 0 ∧ ∃ r, (w'.a.s.jobs j).pc = .finished r) ∧
+    (∀ p, (w'.a.d.procs p).ph = .gone) := by
+  have h := restart_maximal_run_all_final (fl := fl0) rfl rfl rfl rfl (totals := []) (done0 := fun _ => false)
+    (w := overW) ⟨_, rfl⟩ overXs over_subsOK over_tokFit (overRunA ++ overRunB) (RestartTerm.runE_of_b _ _ _ (by decide))
+    (RestartLive.stuck_of_b _ (by decide))
+  exact ⟨h.1, h.2.2.1, h.2.2.2.1, h.2.2.2.2.2.2.2.1⟩
+
+/-- the bound of `restart_run_finite` on these two restarts, and the lengths of the runs -/
+example : RestartFull.wmuF (RestartTerm.resubmitted fl0 overW overXs) = 15870 ∧ (overRunA ++ overRunB).length = 19 ∧
+    RestartFull.wmuF (RestartTerm.resubmitted fl0 depW depXs) = 78706 ∧ depSecondRun.length = 23 := by decide
+
+/-- the full statement on the restart `depW` above (adoption during the re-submission, token + job dependency) -/
+theorem dep_subsOK : RestartTerm.SubsOK fl0 depW.restart.a.d (St.init depW.totals) depXs :=
+  RestartFull.subsOK_of_b _ _ _ _ (by decide)
+example :
+    let w' := W.run fl0 (RestartTerm.resubmitted fl0 depW depXs) depSecondRun
+    depSecondRun.length ≤ RestartFull.wmuF (RestartTerm.resubmitted fl0 depW depXs) ∧ SchedFinal.AllFinal w'.a.s ∧
+    (∀ t, w'.a.s.avail t = w'.a.s.total t) ∧ (∀ p, (w'.a.d.procs p).ph = .gone) := by
+  have h := restart_maximal_run_all_final (fl := fl0) rfl rfl rfl rfl (totals := [1]) (done0 := fun _ => false)
+    (w := depW) ⟨_, rfl⟩ depXs dep_subsOK dep_tokFit depSecondRun (RestartTerm.runE_of_b _ _ _ (by decide)) dep_maximal
+  exact ⟨h.1, h.2.2.1, h.2.2.2.2.1, h.2.2.2.2.2.2.2.1⟩
 
 /-- obligation on the current source: the three scheduler repairs are present (the driver runs the model with these flags) -/
 theorem scheduler_flags : Gen.schedFlags.readyGuarded = true ∧ Gen.schedFlags.resubmitRegisters = true ∧ Gen.schedFlags.abortRechecks = true ∧
